@@ -138,7 +138,7 @@ def stream_with_length(s: Stream) -> Stream:
     return Stream(d, s.data)
 
 
-def write_history(revs: Sequence[Dict[str, Any]], header: bytes = HEADER):
+def write_history(revs: Sequence[Dict[str, Any]], header: bytes = HEADER, every_prefix: bool = True):
     """Return (data, model).
 
     model = {"cuts": [len of file after revision k],
@@ -148,6 +148,9 @@ def write_history(revs: Sequence[Dict[str, Any]], header: bytes = HEADER):
              "root": [num...], "info": [num...],
              "offsets": [ {num: ("d", offset) | ("o", container, index)} per revision ],
              "xrefpos": [startxref target per revision]}
+
+    every_prefix=False keeps only the state after the last revision (lists of length 1; for very long histories).
+    The function is a plain loop over the revisions: nothing here depends on the interpreter's recursion limit.
     """
     out = bytearray(header)
     cur: Dict[int, Any] = {}
@@ -265,6 +268,8 @@ def write_history(revs: Sequence[Dict[str, Any]], header: bytes = HEADER):
         cur = {**cur, **objs}
         freed = (freed - set(objs)) | set(frees)
         sections = newsecs + sections
+        if not every_prefix and r + 1 < len(revs):
+            continue
         model["cuts"].append(len(out))
         model["values"].append(dict(cur))
         model["freed"].append(sorted(freed))
